@@ -102,10 +102,13 @@ def env():
     return types.SimpleNamespace(**_env)
 
 
-def mk_container(ca=True):
+CYPHERS = 'ECDHE+AESGCM:ECDHE+CHACHA20:DHE+AESGCM'
+
+
+def mk_container(ca=True, cyphers=None):
     e = env()
     return e.certloader.mk_ssl_contexts(CERTS / 'test_private_key.pem', CERTS / 'test_certificate.pem',
-                                        CERTS / 'test_certificate.pem' if ca else None, ssl_passwd='password')
+                                        CERTS / 'test_certificate.pem' if ca else None, cyphers=cyphers, ssl_passwd='password')
 
 
 def all_configs():
@@ -159,7 +162,8 @@ def classify(path):
 def run_config(cfg):
     """run one configuration with a real provider and consumer on localhost; returns a picklable observation"""
     e = env()
-    prov_tls, prov_server, prov_alt, mode, cons_server, cons_alt = cfg
+    prov_tls, prov_server, prov_alt, mode, cons_server, cons_alt = cfg[:6]
+    spelled_http = len(cfg) > 6 and cfg[6] == 'http'     # the application spells the provider address http://host:port/…
     obs = {'cfg': list(cfg), 'start': None, 'ssl': None, 'addresses': [], 'unmapped': [], 'cons_clients': [],
            'prov_clients': [], 'prov_server_tls': None, 'cons_server_tls': None, 'notes': []}
     messages = []
@@ -212,7 +216,8 @@ def run_config(cfg):
             cc = copy.deepcopy(e.consumerimpl.default_sdc_consumer_components_sync) if cc is None else cc
             cc.soap_client_class = recording('cons')
             try:
-                cons = e.SdcConsumer(xaddrs[0], e.SdcV1Definitions, mk_container() if mode != 'none' else None,
+                address = xaddrs[0].replace('https://', 'http://') if spelled_http else xaddrs[0]
+                cons = e.SdcConsumer(address, e.SdcV1Definitions, mk_container() if mode != 'none' else None,
                                      force_ssl_connect=(mode == 'enforced'), components=cc,
                                      alternative_hostname=ALT if cons_alt else None, socket_timeout=8)
                 obs['init_ssl'] = cons.is_ssl_connection
@@ -377,7 +382,13 @@ def covering_configs(seed):
     # mismatching provider servers, and both alt host names with TLS everywhere
     res += [(1, 'tls', 1, 'enforced', 'tls', 1), (1, 'plain', 0, 'enforced', 'own', 0), (0, 'tls', 0, 'optional', 'own', 1),
             (1, 'own', 1, 'enforced', 'own', 1), (1, 'own', 0, 'enforced', 'plain', 0), (0, 'plain', 0, 'optional', 'own', 0)]
+    # the provider address spelled http://… by the application although the provider speaks TLS
+    res += [(1, 'own', 0, 'enforced', srv, 0, 'http') for srv in SERVERS] + [(1, 'tls', 1, 'optional', 'plain', seed % 2, 'http')]
     return sorted(set(res))
+
+
+def spelled_configs():
+    return [(1, b, 0, d, e_, f, 'http') for b in ('own', 'tls') for d in ('optional', 'enforced') for e_ in SERVERS for f in (0, 1)]
 
 
 # ------------------------------------------------------------------------------------------------ wire level: delivery to an http:// subscriber
@@ -517,7 +528,7 @@ def ssl_letter(v):
 
 def oracle(ctx, obs):
     cfg = tuple(obs['cfg'])
-    prov_tls, prov_server, prov_alt, mode, cons_server, cons_alt = cfg
+    prov_tls, prov_server, prov_alt, mode, cons_server, cons_alt = cfg[:6]
     case = {'config': list(cfg)}
     if prov_tls:
         # every address of an own endpoint in every message the provider serialised (whatever the XML context)
@@ -539,7 +550,7 @@ def oracle(ctx, obs):
 
 def model_lines(obs):
     cfg = obs['cfg']
-    prov_tls, prov_server, prov_alt, mode, cons_server, cons_alt = cfg
+    prov_tls, prov_server, prov_alt, mode, cons_server, cons_alt = cfg[:6]
     # the TLS handshake succeeds iff the provider's server speaks TLS; a refused handshake is an ssl.SSLError unless the
     # socket layer reported something else (time-out under load): then nothing was decided (is_ssl_connection unchanged)
     ok = '1' if obs.get('prov_server_tls') else '0'
@@ -552,7 +563,8 @@ def model_lines(obs):
         evs += ' g0' if prov_alt else ' g2'     # the alias name is the x-addr's netloc when the provider advertises it
     if obs.get('restart'):
         evs += f' s c{ok}' + (' g1' if prov_alt else ' g0')
-    return [f"crun {mode} {evs}",
+    spelling = 'http' if len(cfg) > 6 and cfg[6] == 'http' else 'https'
+    return [f"crun {mode} {evs}", f"accept {cons_server} {ssl_letter(obs.get('ssl'))} {spelling}",
             f"sites {prov_tls} {prov_server} {prov_alt} {mode} {cons_server} {cons_alt} {ssl_letter(obs.get('ssl'))}"]
 
 
@@ -575,7 +587,7 @@ def compare(ctx, obs, out):
         if want != f'{scheme}/{kind}':
             ctx.disagree(f'address at site {site}', {**case, 'context': path}, want, f'{scheme}/{kind}')
             break
-    accept_model = fields['accept'] == '1'
+    accept_model = fields['accept'] == '1' and out[2] == '1'
     refused = obs['start'] == 'ValueError' and any('Shared http server' in n for n in obs.get('notes', []))
     if obs.get('ssl') is True and obs['start'] in ('ok', 'ValueError') and accept_model == refused:
         ctx.disagree('event sink accepted', case, accept_model, not refused)
@@ -671,9 +683,10 @@ def consumer_events(ctx, model_cases, only=None):
 def verify_table():
     res = []
     for ca in (False, True):
-        c = mk_container(ca)
-        res.append((False, ca, c.client_context.verify_mode))
-        res.append((True, ca, c.server_context.verify_mode))
+        for cy in (False, True):
+            c = mk_container(ca, CYPHERS if cy else None)
+            res.append((False, ca, cy, c.client_context.verify_mode))
+            res.append((True, ca, cy, c.server_context.verify_mode))
     return res
 
 
@@ -688,8 +701,8 @@ def folder_table():
     res = []
     for key in (False, True):
         for cert in (False, True):
-            for named in (False, True):
-                for present in (False, True):
+            for named, present, cy in [(n_, p_, c_) for n_ in (False, True) for p_ in (False, True) for c_ in (False, True)]:
+                if True:
                     d = tempfile.mkdtemp(prefix='verif_c19_')
                     try:
                         if key:
@@ -698,15 +711,20 @@ def folder_table():
                             shutil.copy(CERTS / 'test_certificate.pem', os.path.join(d, 'usercert.pem'))
                         if present:
                             shutil.copy(CERTS / 'test_certificate.pem', os.path.join(d, 'cacert.pem'))
+                        if cy:
+                            with open(os.path.join(d, 'cyphers.txt'), 'w') as f:
+                                f.write('# cyphers of the installation\n' + CYPHERS + '\n')
                         try:
                             kw = {} if named else {'ca_public_key': None}     # default: ca_public_key='cacert.pem'
+                            if cy:
+                                kw['cyphers_file'] = 'cyphers.txt'
                             c = e.certloader.mk_ssl_contexts_from_folder(d, ssl_passwd='password', **kw)
                             out = (VM_NAME[c.client_context.verify_mode], VM_NAME[c.server_context.verify_mode])
                         except Exception as ex:  # noqa: BLE001
                             out = type(ex).__name__
                     finally:
                         shutil.rmtree(d, ignore_errors=True)
-                    res.append((key, cert, named, present, out))
+                    res.append((key, cert, named, present, cy, out))
     return res
 
 
@@ -743,7 +761,7 @@ def translate(ctx):
     order = list(SITE_CTOR)
     sites.sort(key=order.index)
     vm = {ssl.CERT_NONE: '.certNone', ssl.CERT_OPTIONAL: '.certOptional', ssl.CERT_REQUIRED: '.certRequired'}
-    vt = ', '.join(f"({str(s).lower()}, {str(c).lower()}, {vm[m]})" for s, c, m in verify_table())
+    vt = ', '.join(f"({str(s).lower()}, {str(c).lower()}, {str(y).lower()}, {vm[m]})" for s, c, y, m in verify_table())
     it = ', '.join(f"(.{m}, {'none' if v is None else 'some ' + str(v).lower()})" for m, v in init_table())
     vname = {'CERT_NONE': '.certNone', 'CERT_OPTIONAL': '.certOptional', 'CERT_REQUIRED': '.certRequired'}
 
@@ -753,17 +771,18 @@ def translate(ctx):
         if isinstance(out, tuple):
             return f'.contexts {vname[out[0]]} {vname[out[1]]}'
         raise RuntimeError(f'translator: mk_ssl_contexts_from_folder ended with {out}')
-    ft = ',\n  '.join(f"({str(k).lower()}, {str(c).lower()}, {str(n).lower()}, {str(p_).lower()}, {fres(o)})" for k, c, n, p_, o in folder_table())
+    ft = ',\n  '.join(f"({str(k).lower()}, {str(c).lower()}, {str(n).lower()}, {str(p_).lower()}, {str(y).lower()}, {fres(o)})"
+                       for k, c, n, p_, y, o in folder_table())
     src = ('import SdcModel.Tls\n/-! generated by harness/props/c19.py from the running code — do not edit -/\n'
            'namespace Sdc.Generated.C19\nopen Sdc.Tls\n'
            '/-- sites (XML contexts mapped to model sites) at which an address of an own endpoint was found in a serialised message -/\n'
            f"def observedSites : List Site := [{', '.join('.' + SITE_CTOR[s] for s in sites)}]\n"
-           '/-- `(server?, caFile?, verify_mode)` of the contexts made by `mk_ssl_contexts` -/\n'
-           f'def verifyObserved : List (Bool × Bool × Verify) := [{vt}]\n'
+           '/-- `(server?, caFile?, cyphers?, verify_mode)` of the contexts made by `mk_ssl_contexts` -/\n'
+           f'def verifyObserved : List (Bool × Bool × Bool × Verify) := [{vt}]\n'
            '/-- `is_ssl_connection` after the `SdcConsumer` constructor -/\n'
            f'def initSslObserved : List (ConsMode × Option Bool) := [{it}]\n'
-           '/-- `(key present, certificate present, CA file named, CA file present, result)` of `mk_ssl_contexts_from_folder` -/\n'
-           f'def folderObserved : List (Bool × Bool × Bool × Bool × FolderResult) := [\n  {ft}]\n'
+           '/-- `(key present, certificate present, CA file named, CA file present, cyphers file, result)` of `mk_ssl_contexts_from_folder` -/\n'
+           f'def folderObserved : List (Bool × Bool × Bool × Bool × Bool × FolderResult) := [\n  {ft}]\n'
            'end Sdc.Generated.C19\n')
     core.write_if_changed(core.GENERATED + '/TlsSites.lean', src)
 
@@ -774,26 +793,27 @@ def run(ctx):
     env()
     # ---- CA file => CERT_REQUIRED (oracle) and the model's verify table
     lines, expect = [], []
-    for server, ca, mode in verify_table():
+    for server, ca, cy, mode in verify_table():
         if ca and mode != ssl.CERT_REQUIRED:
-            ctx.fail('tls:ca-file-without-cert-required', f"{'server' if server else 'client'} context from a CA file has verify_mode {mode!r}", {'verify': [server, ca]})
-        lines.append(f'verify {int(server)} {int(ca)}')
+            ctx.fail('tls:ca-file-without-cert-required', f"{'server' if server else 'client'} context from a CA file"
+                     f"{' and a cyphers string' if cy else ''} has verify_mode {mode!r}", {'verify': [server, ca, cy]})
+        lines.append(f'verify {int(server)} {int(ca)} {int(cy)}')
         expect.append({ssl.CERT_NONE: 'CERT_NONE', ssl.CERT_OPTIONAL: 'CERT_OPTIONAL', ssl.CERT_REQUIRED: 'CERT_REQUIRED'}[mode])
     for mode, v in init_table():
         lines.append(f'init {mode}')
         expect.append(ssl_letter(v))
-    for key, cert, named, present, out in folder_table():
-        case = {'folder': [key, cert, named, present]}
+    for key, cert, named, present, cy, out in folder_table():
+        case = {'folder': [key, cert, named, present, cy]}
         if named and isinstance(out, tuple) and out != ('CERT_REQUIRED', 'CERT_REQUIRED'):
             ctx.fail('tls:ca-file-missing-degrades' if not present else 'tls:ca-file-without-cert-required',
                      f"mk_ssl_contexts_from_folder with a CA file named ({'present' if present else 'MISSING in the folder'}) "
                      f'returned contexts with verify modes client={out[0]} server={out[1]}', case)
-        lines.append(f'folder {int(key)} {int(cert)} {int(named)} {int(present)}')
+        lines.append(f'folder {int(key)} {int(cert)} {int(named)} {int(present)} {int(cy)}')
         expect.append(out if isinstance(out, str) else ' '.join(out))
-        _case(ctx, case, nontrivial=named, sample={**case, 'result': out} if (key, cert, named, present) == (True, True, True, False) else None)
+        _case(ctx, case, nontrivial=named, sample={**case, 'result': out} if (key, cert, named, present, cy) == (True, True, True, False, False) else None)
         ctx.count('folder:' + (out if isinstance(out, str) else 'contexts'))
     # ---- configurations on localhost
-    cfgs = all_configs() if ctx.tier == 'thorough' else covering_configs(ctx.seed)
+    cfgs = (all_configs() + spelled_configs()) if ctx.tier == 'thorough' else covering_configs(ctx.seed)
     t0 = time.time()
     todo = [c for c in cfgs if tuple(c) not in _translate_obs]
     observations = [_translate_obs[tuple(c)] for c in cfgs if tuple(c) in _translate_obs]
@@ -812,7 +832,7 @@ def run(ctx):
         ml = model_lines(obs)
         per_obs.append((obs, len(lines)))
         lines += ml
-        expect += [None, None]
+        expect += [None, None, None]
         sites = sorted({a[0] for a in obs['addresses'] if a[0] != 'echo'})
         _case(ctx, case, nontrivial=bool(cfg[0]) or cfg[3] != 'none',
               sample={'config': list(cfg), 'start': obs['start'], 'is_ssl_connection': obs.get('ssl'), 'sites': sites,
@@ -843,7 +863,7 @@ def run(ctx):
             if exp is not None and out[i] != exp:
                 ctx.disagree('verify mode / constructor table', {'line': lines[i]}, out[i], exp)
         for obs, pos in per_obs:
-            compare(ctx, obs, out[pos:pos + 2])
+            compare(ctx, obs, [out[pos], out[pos + 2], out[pos + 1]])
         check_delivery(ctx, dobs, out[dbase:dbase + len(deliveries)])
         for (case, line, impl), o in zip(model_cases, out[base:]):
             if o != impl:
@@ -856,7 +876,7 @@ def run(ctx):
 
 def search(ctx):
     """deeper search: every configuration with TLS somewhere"""
-    cfgs = [c for c in all_configs() if (c[0] or c[3] == 'enforced')]
+    cfgs = [c for c in all_configs() + spelled_configs() if (c[0] or c[3] == 'enforced')]
     for obs in run_configs(cfgs, 8):
         oracle(ctx, obs)
         if ctx.failures:
@@ -880,13 +900,13 @@ def replay(ctx, obj):
         print({k: obs.get(k) for k in ('connections', 'tls_hello', 'plaintext', 'error')})
         check_delivery(ctx, [obs], [None])
     elif 'folder' in case:
-        key, cert, named, present = case['folder']
-        out = [o for k, c, n, p_, o in folder_table() if (k, c, n, p_) == (key, cert, named, present)][0]
+        key, cert, named, present, cy = (list(case['folder']) + [False])[:5]
+        out = [o for k, c, n, p_, y, o in folder_table() if (k, c, n, p_, y) == (key, cert, named, present, cy)][0]
         print('mk_ssl_contexts_from_folder ->', out)
         return bool(named and isinstance(out, tuple) and out != ('CERT_REQUIRED', 'CERT_REQUIRED'))
     elif 'verify' in case:
-        server, ca = case['verify']
-        c = mk_container(ca)
+        server, ca, cy = (list(case['verify']) + [False])[:3]
+        c = mk_container(ca, CYPHERS if cy else None)
         return (c.server_context if server else c.client_context).verify_mode != ssl.CERT_REQUIRED
     for f in ctx.failures[before:]:
         print(f['signature'], '-', f['detail'])
